@@ -2707,3 +2707,16 @@ variant('b-orig-f27-channel-request-n-written-after-the-end', ['C08'], H + 'requ
 variant('b-channel-notes-the-peers-end-after-telling-the-subscriber', ['C08'], H + 'request_cahnnel_common.py',
         "            if frame.flags_complete:\n                self._received_complete = True  # before the subscriber is told: it may ask for more in on_next\n\n            if frame.flags_next:",
         "            if frame.flags_next:", ('C08.l', 'PayloadFrame[complete'))
+
+# C02.a the reader reads a metadata section where the protocol has one (third mutation retest)
+variant('b-lease-parser-forgets-its-metadata', ['C02'], 'rsocket/frame.py',
+        "        offset += self.parse_metadata(buffer, offset + 8)\n", "        pass\n",
+        ('C02.a', 'LeaseFrame / layout'))
+variant('b-metadata-push-parser-forgets-its-metadata', ['C02'], 'rsocket/frame.py',
+        "        ParseHelper.parse_header(self, buffer, offset)\n        offset += HEADER_LENGTH\n        offset += self.parse_metadata(buffer, offset)\n\n\nclass ResumeFrame",
+        "        ParseHelper.parse_header(self, buffer, offset)\n        offset += HEADER_LENGTH\n\n\nclass ResumeFrame",
+        ('C02.a', 'MetadataPushFrame / layout'))
+variant('b-request-payload-parser-forgets-the-metadata', ['C02'], 'rsocket/frame.py',
+        "    def _parse_payload(self, buffer: bytes, offset: int):\n        offset += self.parse_metadata(buffer, offset)\n",
+        "    def _parse_payload(self, buffer: bytes, offset: int):\n",
+        ('C02.a', 'layout'))
